@@ -113,6 +113,33 @@ class _Srv(object):
         conn.settimeout(30)
         return out
 
+    def read_rest(self, want_len, bound=10.0, quiet=1.0):
+        """everything the client wrote that is still to be had: until end of stream (the client closed, or the transport
+        reports an error), or until `want_len` octets are there and nothing more arrives for 50 ms, or until nothing
+        arrives for `quiet` s (longer than the client's socket timeout: a send that is still waiting has given up by then),
+        or for `bound` s.  Returns (octets, how the reading ended)."""
+        conn = self.conn
+        t = now() + bound
+        conn.settimeout(0.05)
+        last = now()
+        how = 'bound'
+        while now() < t:
+            if now() - last >= (0.05 if len(self.rbuf) >= want_len else quiet):
+                how = 'quiet'; break
+            try:
+                d = conn.recv(1 << 18)
+            except (socket.timeout, ssl.SSLWantReadError):
+                continue
+            except Exception as e:
+                how = 'error:' + type(e).__name__; break
+            if not d:
+                how = 'eof'; break
+            self.rbuf += d; last = now()
+        out, self.rbuf = self.rbuf, b''
+        try: conn.settimeout(30)
+        except Exception: pass
+        return out, how
+
     def send(self, data):
         try:
             self.conn.sendall(data); return True
@@ -122,7 +149,7 @@ class _Srv(object):
 
 class TlsSrv(_Srv):
     kind = 'tls'
-    def __init__(self, base):
+    def __init__(self, base, rcvbuf=None):
         _Srv.__init__(self, base)
         files = tls_files()
         self.ctx = ssl.SSLContext(ssl.PROTOCOL_TLS_SERVER)
@@ -130,6 +157,8 @@ class TlsSrv(_Srv):
         self.ctx.verify_mode = ssl.CERT_NONE
         self.ls = socket.socket(socket.AF_INET, socket.SOCK_STREAM)
         self.ls.setsockopt(socket.SOL_SOCKET, socket.SO_REUSEADDR, 1)
+        if rcvbuf:                              # a peer with a fixed, small receive buffer (inherited by the accepted socket)
+            self.ls.setsockopt(socket.SOL_SOCKET, socket.SO_RCVBUF, rcvbuf)
         self.ls.bind(('127.0.0.1', 0)); self.ls.listen(1)
         self.port = self.ls.getsockname()[1]
         self.th = threading.Thread(target=self._acc, daemon=True, name='c01-tls-acceptor'); self.th.start()
@@ -207,14 +236,29 @@ class SshSrv(_Srv):
             except Exception: pass
 
 
+_useq = [0]
 class UnixSrv(_Srv):
     kind = 'unix'
-    def __init__(self, base):
+    def __init__(self, base, listen=False):
+        """listen=False: a socketpair, the client end is handed to the session (no timeout on it).
+        listen=True: a listening socket bound to a path; the client is the real UnixSocketSession.connect(path, timeout),
+        which leaves its timeout on the socket (as manager.connect_uds(timeout=...) does)."""
         _Srv.__init__(self, base)
-        self.a, self.b = socket.socketpair()
+        self.ls = self.path = self.a = self.b = None
+        if listen:
+            os.makedirs(RUNDIR, exist_ok=True)
+            _useq[0] += 1
+            self.path = os.path.join(RUNDIR, 'u%d.sock' % _useq[0])
+            self.ls = socket.socket(socket.AF_UNIX, socket.SOCK_STREAM)
+            self.ls.bind(self.path); self.ls.listen(1)
+        else:
+            self.a, self.b = socket.socketpair()
         self.th = threading.Thread(target=self._serve, daemon=True, name='c01-unix-acceptor'); self.th.start()
     def _serve(self):
         try:
+            if self.ls is not None:
+                self.ls.settimeout(20)
+                self.b, _ = self.ls.accept()
             self.b.settimeout(30)
             self._greet(self.b)
         except Exception as e:
@@ -222,13 +266,20 @@ class UnixSrv(_Srv):
         finally:
             self.ready.set()
     def connect(self, sess, timeout=10):
+        if self.ls is not None:
+            sess.connect(path=self.path, timeout=timeout)
+            return
         sess._socket = self.a
         sess._connected = True
         sess._post_connect(timeout)
     def stop(self):
-        for x in (self.a, self.b):
+        for x in (self.a, self.b, self.ls):
+            if x is None: continue
             try: x.close()
             except Exception: pass
+        if self.path:
+            try: os.unlink(self.path)
+            except OSError: pass
         self.th.join(5)
 
 
@@ -251,7 +302,7 @@ def rec_class(kind):
             self.c01_disp = []        # (index of the read in progress, raw) for every _dispatch_message
             self.c01_total = 0
             self.c01_eof = False
-            self.c01_writes = []      # (head..tail of the data offered, its length, count returned) for every _transport_write
+            self.c01_writes = []      # (head..tail of the data offered, its length, count returned | 'raise:<class>') for every _transport_write
         def c01_state(self):
             b10 = self._base != 2
             third = self.parser._parsing_pos10 if b10 else b''.join(
@@ -272,9 +323,15 @@ def rec_class(kind):
                 self.c01_disp.append((len(self.c01_reads) - 1, raw))
             return base._dispatch_message(self, raw)
         def _transport_write(self, data):
-            n = base._transport_write(self, data)
+            head = bytes(data) if len(data) <= 64 else bytes(data[:32]) + b'..' + bytes(data[-30:])
+            try:
+                n = base._transport_write(self, data)
+            except BaseException as e:
+                if self.c01_armed:
+                    self.c01_writes.append((head, len(data), 'raise:' + type(e).__name__))
+                raise
             if self.c01_armed:
-                self.c01_writes.append((bytes(data) if len(data) <= 64 else bytes(data[:32]) + b'..' + bytes(data[-30:]), len(data), n))
+                self.c01_writes.append((head, len(data), n))
             return n
     Rec.__name__ = 'Rec' + base.__name__
     _classes[kind] = Rec
@@ -291,10 +348,10 @@ def _root_canon(root):
 
 class Conn(object):
     """one real session + its scripted server; always close()"""
-    def __init__(self, kind, base, device_params=None):
+    def __init__(self, kind, base, device_params=None, timeout=10, srv_kw=None):
         from ncclient.transport.session import SessionListener
         self.kind, self.base = kind, base
-        self.srv = SRV[kind](base)
+        self.srv = SRV[kind](base, **(srv_kw or {}))
         if device_params:                       # e.g. {'name': 'junos', 'use_filter': True}: the vendor parser SSHSession.connect installs
             from ncclient.manager import make_device_handler
             dh = make_device_handler(dict(device_params), None)
@@ -310,7 +367,7 @@ class Conn(object):
         self.open_error = None
         self.closed = False
         try:
-            self.srv.connect(self.sess)
+            self.srv.connect(self.sess, timeout=timeout)
             if not self.srv.ready.wait(10) or self.srv.conn is None:
                 raise RuntimeError('scripted server not ready: %s' % self.srv.err)
             want = 2 if base == 11 else 1
@@ -438,6 +495,53 @@ def run_outbound(case, done):
     finally:
         c.close()
     obs['worker_alive_after_close'] = c.sess.is_alive()
+    return obs
+
+
+def run_outbound_stalled(case, want_len):
+    """C02, a peer that stops reading: the session is opened with the short timeout case['timeout_ms'] (TLSSession.connect /
+    UnixSocketSession.connect(path) leave it on the socket), after the hello exchange the scripted server reads NOTHING while the
+    client submits case['msgs'] (case['gap_ms'] apart; far more than the transport buffers).  The stall lasts case['stall_ms']
+    (longer than the timeout), or until the session has reported an error and its thread is gone (nothing can change any more).
+    Then the server reads everything that is still to be had.  Returns dict(open_error, client_hello, wire, how the reading
+    ended, accepted (number of send() calls that returned), send_refused, errors (before close), connected / thread alive after
+    the stall and at the end, later_send (class of what a further send() raises), writes, queue_left, worker_alive_after_close)."""
+    kind, base = case['transport'], case['base']
+    T = case['timeout_ms'] / 1000.0
+    obs = dict(open_error=None, client_hello=b'', wire=b'', errors_before_close=[], worker_alive_after_close=None)
+    srv_kw = {'unix': {'listen': True}, 'tls': {'rcvbuf': 65536}}.get(kind)
+    c = Conn(kind, base, timeout=T, srv_kw=srv_kw)
+    if c.open_error:
+        obs['open_error'] = c.open_error
+        return obs
+    s = c.sess
+    try:
+        obs['client_hello'] = c.srv.client_hello
+        t0 = now()
+        accepted, refused = 0, None
+        for m in case['msgs']:
+            try:
+                s.send(m); accepted += 1
+            except Exception as e:                       # the session is down already: the caller is told
+                refused = type(e).__name__; break
+            if case.get('gap_ms'): time.sleep(case['gap_ms'] / 1000.0)
+        obs['accepted'], obs['send_refused'] = accepted, refused
+        c.wait(lambda: c.errs() and not s.is_alive(), max(0.0, t0 + case['stall_ms'] / 1000.0 - now()))
+        obs['stalled_s'] = round(now() - t0, 3)
+        obs['after_stall'] = dict(errors=c.errs(), connected=bool(s.connected), alive=s.is_alive(), n_writes=len(s.c01_writes))
+        obs['wire'], obs['read_end'] = c.srv.read_rest(want_len, bound=2 * DELIVER_BOUND, quiet=min(T, 1.0) + 0.3)
+        obs['errors_before_close'] = c.errs()
+        obs['connected_end'], obs['alive_end'] = bool(s.connected), s.is_alive()
+        if obs['errors_before_close']:
+            try:
+                s.send('<late/>'); obs['later_send'] = None
+            except Exception as e:
+                obs['later_send'] = type(e).__name__
+        obs['writes'] = list(s.c01_writes)
+        obs['queue_left'] = s._q.qsize()
+    finally:
+        c.close()
+    obs['worker_alive_after_close'] = s.is_alive()
     return obs
 
 
